@@ -68,6 +68,9 @@ type sub05 struct {
 	// its snapshot walk); whatever that abandoned call left behind, the writer
 	// and this call are not affected
 	abandoned bool
+	// pEnc / sEnc: "element" = the prefix / the subscription paths use the
+	// deprecated string-list encoding of path elements instead of PathElem
+	pEnc, sEnc string
 }
 
 func (s sub05) String() string {
@@ -81,12 +84,24 @@ func (s sub05) String() string {
 	if s.abandoned {
 		pt += " after an earlier client of the same paths went away mid-call"
 	}
+	if s.pEnc != "" || s.sEnc != "" {
+		pt += fmt.Sprintf(" encodings prefix=%q paths=%q (\"\" = PathElem)", s.pEnc, s.sEnc)
+	}
 	return fmt.Sprintf("%s target=%s prefix=%s:%s paths=%v polls=%d%s", strings.ToLower(s.mode.String()), s.target, s.pOrigin, s.pElems, s.paths, s.polls, pt)
 }
 
 func (s sub05) request() *pb.SubscribeRequest {
+	depr := func(p *pb.Path) {
+		for _, e := range p.Elem {
+			p.Element = append(p.Element, e.Name)
+		}
+		p.Elem = nil
+	}
 	pre := mkPath(s.pElems)
 	pre.Target, pre.Origin = s.target, s.pOrigin
+	if s.pEnc == "element" {
+		depr(pre)
+	}
 	sl := &pb.SubscriptionList{Prefix: pre, Mode: s.mode}
 	for _, p := range s.paths {
 		o, e := "", p
@@ -95,6 +110,9 @@ func (s sub05) request() *pb.SubscribeRequest {
 		}
 		pp := mkPath(e)
 		pp.Origin = o
+		if s.sEnc == "element" {
+			depr(pp)
+		}
 		sl.Subscription = append(sl.Subscription, &pb.Subscription{Path: pp})
 	}
 	return &pb.SubscribeRequest{Request: &pb.SubscribeRequest_Subscribe{Subscribe: sl}}
@@ -186,6 +204,15 @@ func configs05(tier string) []xplore.Config {
 		for _, p := range []string{"a", "*"} {
 			add(sub05{target: "t1", paths: []string{p}, mode: pb.SubscriptionList_ONCE, writer: sc}, wb)
 			add(sub05{target: "t1", paths: []string{p}, mode: pb.SubscriptionList_POLL, polls: 1, writer: sc}, wb-1)
+		}
+	}
+	// prefix and subscription paths in different encodings of path elements
+	// (PathElem vs the deprecated string list): the prefix's elements count
+	for _, enc := range [][2]string{{"", "element"}, {"element", ""}, {"element", "element"}} {
+		for _, pp := range [][2]string{{"a", "b"}, {"a", "*"}, {"c", "a/b"}, {"c", "*/b"}, {"", "a/b"}} {
+			for _, md := range []pb.SubscriptionList_Mode{pb.SubscriptionList_ONCE, pb.SubscriptionList_POLL} {
+				add(sub05{target: "t1", pElems: pp[0], paths: []string{pp[1]}, mode: md, polls: 1, pEnc: enc[0], sEnc: enc[1]}, sb-1)
+			}
 		}
 	}
 	// an earlier client that went away in the middle of its call, then a writer
